@@ -41,7 +41,19 @@ func (r *rgx17) String() string {
 	return "(" + r.A.String() + ")*"
 }
 
+// c17PrintFirst: in one case out of three every expression handed to a relation has been printed before (String()): an expression is
+// what it denotes, whether or not somebody looked at it
+var c17PrintFirst bool
+
 func (r *rgx17) toGo() *regex.Regex {
+	g := r.toGo0()
+	if c17PrintFirst {
+		_ = g.String()
+	}
+	return g
+}
+
+func (r *rgx17) toGo0() *regex.Regex {
 	switch r.K {
 	case "set":
 		return regex.EmptySet()
@@ -356,6 +368,7 @@ func runC17(cfg *Config) *Report {
 		}
 		c := pick(r, []rune{'a', 'b'})
 		kind := r.Intn(8)
+		c17PrintFirst = r.Intn(3) == 0
 		if i < len(fixed)*6 {
 			kind = []int{4, 5, 2, 3, 0, 4}[(i/len(fixed))%6]
 		}
